@@ -58,6 +58,18 @@ def run(tier, seed):
                 for sq in seqs:
                     ops = [json.loads(json.dumps(alpha[c])) for c in sq] + [{"op": "into_inner"}]
                     wcmds.append(container.writer_cmd(G, cd, approx, ops, level=lv, cid=len(wcmds)))
+    # zero-byte datums: schema "null" and a record without fields (blocks with an empty payload), every codec
+    zspecs = [([{"k": "null", "lt": "none"}], {"p": "unit"}, {"t": "null"}),
+              ([{"k": "record", "lt": "none", "name": container.T("Empty"), "fields": []}], {"p": "struct", "name": container.T("Empty"), "fs": []}, {"t": "rec", "es": []})]
+    zero_value = {}
+    for zg, zp, zv in zspecs:
+        for cd in container.CODECS:
+            for approx in (0, 5):
+                for n_items, with_push in ((1, False), (3, False), (2, True)):
+                    ops = [{"op": "serialize", "pres": zp} for _ in range(n_items)] + ([{"op": "push", "bytes": [], "n": 2}] if with_push else []) + [{"op": "into_inner"}]
+                    c = container.writer_cmd(zg, cd, approx, ops, cid=len(wcmds))
+                    zero_value[len(wcmds)] = zv
+                    wcmds.append(c)
     wobs = common.run_harness(wcmds, per_cmd_timeout=60)
     rcmds, rmeta = [], []
     for c, o in zip(wcmds, wobs):
@@ -84,7 +96,7 @@ def run(tier, seed):
                           {"fam": "roundtrip", "wcmd": wc, "reader": rc["reader"]}, observed=o)
             continue
         # expected values: denotations of the presentations; the harness serialized canonical presentations of known values
-        exp_vals = expected_values(G, wc, written, pushed_vals)
+        exp_vals = [zero_value[wc["id"]]] * len(written) if wc["id"] in zero_value else expected_values(G, wc, written, pushed_vals)
         ev = read_event(exp_vals, o["results"])
         events.append(ev)
         owners.append((wc, rc["reader"], o))
